@@ -16,6 +16,12 @@ lp = dprops.mine_looped(w)
 json.dump(lp, open(os.path.join(facts.VERIF, 'rules', 'looped.json'), 'w'), indent=1)
 bf = dprops.mine_boundflow(w)
 json.dump(bf, open(os.path.join(facts.VERIF, 'rules', 'boundflow.json'), 'w'), indent=1)
+from analysis.props import c11
+uc = c11.unchecked_callers(w)
+for k, v in c11.unchecked_callers(World('devcurves')).items():
+    uc.setdefault(k, set()).update(v)
+json.dump({k: sorted(v) for k, v in sorted(uc.items())}, open(os.path.join(facts.VERIF, 'rules', 'unchecked_callers.json'), 'w'), indent=1)
+print('unchecked decoders', len(uc))
 rc = dprops.mine_retcover(w)
 json.dump(rc, open(os.path.join(facts.VERIF, 'rules', 'retcover.json'), 'w'), indent=1)
 print('shortcut returns', len(rc))
